@@ -5,6 +5,10 @@ The harness counts, at the instant it happens, every Connection handed out and
 not yet released/closed (through a Connection subclass rebound into
 aiohttp.connector) and every connection attempt in progress (through the
 documented extension point _create_connection).  DESIGN.md section 9, C07.
+
+Some runs send their requests through a scripted HTTP proxy (plain forwarding and CONNECT tunnels followed by a
+pass-through TLS upgrade); the rules are the same: nothing the connector opened may stay open outside pool and in-use set
+once the attempt that opened it has ended, and close() closes all of it.
 """
 from __future__ import annotations
 
@@ -39,19 +43,48 @@ RULE = (
     "each task: start delay, host, server behaviour (fast / slow body / never answers / closes / Connection: close), hold "
     "time, then read/release/close, optional per-request total timeout; faults: connect outcome per attempt (ok, refuse, "
     "OSError, stall, delay), DNS failure/stall, cancel(task) before step k, connector.close() before step k. "
+    "12 % of runs route requests through an HTTP proxy: http:// targets in absolute form, https:// targets through a CONNECT "
+    "tunnel the proxy opens, opens late, refuses (403/407/502, with or without closing), drops or never answers, followed by "
+    "a TLS upgrade that succeeds, fails or stalls. "
     "Non-trivial: at least one task had to wait for a slot. Distinct = interleaving signature."
 )
 COMPONENTS = {
     "real": ["connector.BaseConnector/TCPConnector (pool, waiters, limits)", "client.ClientSession", "client_reqrep", "client_proto",
              "helpers timeouts"],
-    "stub": ["network (SimNet)", "DNS (SimResolver)", "happy-eyeballs (single attempt)", "servers (scripted raw)", "TLS"],
+    "stub": ["network (SimNet)", "DNS (SimResolver)", "happy-eyeballs (single attempt)", "servers and proxy (scripted raw)",
+             "TLS (loop.start_tls replaced by a pass-through that hands the transport to the new protocol, or fails/stalls "
+             "and then closes the transport as asyncio's start_tls does)"],
 }
 ASSUMPTIONS = [
     "'in use' = a Connection object handed out and not yet released or closed; 'being established' = inside _create_connection",
     "liveness is judged only after faults stop and only in runs without client timeouts for the waiting task",
+    "'endpoint' for limit_per_host = host, port, scheme and route (direct or via the proxy), i.e. what the pool is keyed by; "
+    "a tunnel being set up through the proxy counts as a connection being established to the https endpoint",
 ]
 
 HOSTS = [("h0.test", "10.0.1.1"), ("h1.test", "10.0.1.2"), ("h2.test", "10.0.1.3")]
+PROXY = ("p.test", "10.0.1.9", 3128)
+PROXY_URL = f"http://{PROXY[0]}:{PROXY[2]}"
+
+
+def endpoint(host, port, is_ssl, proxied):
+    """The endpoint limit_per_host is counted for: host, port, scheme and route (direct or through the proxy) - what
+    the connector keys its pool by.  A direct plain-http endpoint keeps the bare host name."""
+    if port in (80, None) and not is_ssl and not proxied:
+        return host
+    return f"{host}:{port}{'+tls' if is_ssl else ''}{'@proxy' if proxied else ''}"
+
+
+def endpoint_of_key(key):
+    return endpoint(key.host, key.port, key.is_ssl, key.proxy is not None)
+
+
+def endpoint_of_task(spec):
+    via = spec.get("via")
+    host = HOSTS[spec["host"]][0]
+    if via == "https":
+        return endpoint(host, 443, True, True)
+    return endpoint(host, 80, False, via == "http")
 
 
 def gen(rng, tier, index):
@@ -71,7 +104,7 @@ def gen(rng, tier, index):
     for _ in range(rng.choice([0, 0, 2, 6])):
         connect.append([rng.choice(["ok", "ok", "refuse", "oserror", "stall", "ok"]), rng.choice([0, 1, 3, 10])])
     dns = rng.choice([None, None, None, "fail_once", "stall_once", "slow"])
-    return {
+    scn = {
         "tasks": tasks, "nh": nh, "limit": rng.choice([0, 1, 1, 2, 3]), "lph": rng.choice([0, 0, 1, 2]),
         "force_close": rng.random() < 0.2, "cancels": cancels, "connect": connect, "dns": dns,
         "close_at": rng.choice([None, None, None, rng.randint(5, 150)]), "lat": rng.choice([0, 1, 2]),
@@ -81,9 +114,46 @@ def gen(rng, tier, index):
                   {k: rng.choice([0, 0, 1, 3]) for k in rng.sample(["reuseconn", "create_start", "create_end", "queued_start", "queued_end"],
                                                                    rng.randint(1, 3))}),
     }
+    # Requests routed through an HTTP proxy (drawn last so that every other scenario keeps its shape): a plain
+    # http:// target is sent to the proxy in absolute form on a connection pooled under the proxied key; an https://
+    # target first needs a CONNECT tunnel on a fresh connection to the proxy and then a TLS upgrade of that very
+    # transport - two more places where a connection attempt can fail, stall or be cancelled while the connector
+    # holds a transport that is in neither of its sets.
+    if rng.random() < 0.12:
+        for t in tasks:
+            t["via"] = rng.choice([None, "http", "https", "https", "https"])
+        scn["proxy"] = {
+            # what the proxy does with the k-th CONNECT it receives (later ones: 200)
+            "connect": [rng.choice(CONNECT_ANSWERS) for _ in range(rng.choice([0, 1, 2, 4]))],
+            # outcome of the k-th TLS upgrade (later ones: ok, no delay)
+            "tls": [[rng.choice(["ok", "ok", "fail", "stall"]), rng.choice([0, 1, 3])] for _ in range(rng.choice([0, 0, 1, 3]))],
+        }
+    return scn
+
+
+# CONNECT answers of the scripted proxy: "<status>" answers and keeps the connection open, "<status>close" answers and
+# closes, "<status>body" answers with a body and keeps open, "close" closes without answering, "never" says nothing,
+# "slow200:<ms>" opens the tunnel late.
+CONNECT_ANSWERS = ["200", "200", "403", "407", "502", "403body", "403close", "close", "never", "slow200:3", "slow200:30"]
 
 
 def shrink(scn):
+    if scn.get("proxy"):
+        ts = scn["tasks"]
+        yield dict(scn, proxy=None, tasks=[{k: v for k, v in t.items() if k != "via"} for t in ts])
+        for i, t in enumerate(ts):
+            if t.get("via"):
+                yield dict(scn, tasks=ts[:i] + [dict(t, via=None)] + ts[i + 1:])
+        px = scn["proxy"]
+        for f in ("connect", "tls"):
+            for i in range(len(px[f])):
+                yield dict(scn, proxy=dict(px, **{f: px[f][:i] + px[f][i + 1:]}))
+        for i, a in enumerate(px["connect"]):
+            if a.startswith("slow200"):
+                yield dict(scn, proxy=dict(px, connect=px["connect"][:i] + ["200"] + px["connect"][i + 1:]))
+        for i, (o, d) in enumerate(px["tls"]):
+            if d:
+                yield dict(scn, proxy=dict(px, tls=px["tls"][:i] + [[o, 0]] + px["tls"][i + 1:]))
     if scn["close_at"] is not None:
         yield dict(scn, close_at=None)
     if scn["cancels"]:
@@ -128,6 +198,9 @@ class Harness:
         self.reused = {}
         self.cancelled_while_requesting = False
         self.establishing = set()
+        self.tls_ok = 0
+        self.tr_by_task = {}  # task name -> client transports it opened (in order)
+        self.tr_end = {}      # transport name -> (exception type that ended the attempt which opened it, connector closed then)
 
 
 def run(scn, ch, log=False):
@@ -153,7 +226,7 @@ def run(scn, ch, log=False):
             super().__init__(connector, key, protocol, loop)
             H.handouts += 1
             H.last_reuse = id(protocol) in H.protos
-            H.out[id(self)] = key.host
+            H.out[id(self)] = endpoint_of_key(key)
             H.reused[id(self)] = H.last_reuse
             H.protos.add(id(protocol))
             H.keep.append(protocol)  # keep ids unique for the run
@@ -178,14 +251,20 @@ def run(scn, ch, log=False):
 
     class TConnector(aiohttp.TCPConnector):
         async def _create_connection(self, req, traces, timeout):
-            host = req.connection_key.host
+            host = endpoint_of_key(req.connection_key)
             H.est += 1
             H.est_host[host] = H.est_host.get(host, 0) + 1
             t = asyncio.current_task()
             name = t.get_name() if t is not None else "?"
             H.establishing.add(name)
+            mine = H.tr_by_task.setdefault(name, [])
+            n0 = len(mine)
             try:
                 return await super()._create_connection(req, traces, timeout)
+            except BaseException as e:
+                for tr in mine[n0:]:
+                    H.tr_end[tr.name] = (type(e).__name__, bool(self._closed))
+                raise
             finally:
                 H.est -= 1
                 H.est_host[host] -= 1
@@ -217,6 +296,11 @@ def run(scn, ch, log=False):
                         del c.buf[:used]
                         c.requests.append(req)
                         path = req["target"].decode("latin-1")
+                        if req["method"] == b"CONNECT":
+                            self.connect(c)
+                            continue
+                        if path.startswith("http://"):  # absolute form, as sent to a proxy
+                            path = "/" + path.split("/", 3)[3]
                         beh = path.split("/")[1]
                         if beh == "fast":
                             c.send(b"HTTP/1.1 200 OK\r\nContent-Length: 2\r\n\r\nok")
@@ -231,15 +315,75 @@ def run(scn, ch, log=False):
                             c.transport.close()
                         # "never": say nothing
 
+                def connect(self, c):
+                    # the proxy's side of a tunnel request; once it said 200 it relays, i.e. the same connection is
+                    # served as the origin (TLS is a pass-through here)
+                    self.connects += 1
+                    answers = px["connect"] if px else []
+                    a = answers[self.connects - 1] if self.connects <= len(answers) else "200"
+                    loop.note("proxy_connect", a)
+                    ok = b"HTTP/1.1 200 Connection established\r\n\r\n"
+                    if a == "200":
+                        c.send(ok)
+                    elif a.startswith("slow200"):
+                        loop.sim_call_later(int(a.split(":")[1]) * 0.001, c.send, ok)
+                    elif a == "close":
+                        c.transport.close()
+                    elif a != "never":
+                        loop.faults["connect_refused_by_proxy"] += 1
+                        reason = {"403": b"Forbidden", "407": b"Proxy Authentication Required", "502": b"Bad Gateway"}[a[:3]]
+                        body = b"denied" if a.endswith("body") else b""
+                        c.send(b"HTTP/1.1 " + a[:3].encode() + b" " + reason + b"\r\nContent-Length: " + str(len(body)).encode()
+                               + b"\r\n\r\n" + body)
+                        if a.endswith("close"):
+                            c.transport.close()
+
                 def on_eof(self, c):
                     pass
 
                 def on_lost(self, c):
                     pass
 
+            px = scn.get("proxy")
             srv = Srv()
+            srv.connects = 0
             for name, ip in HOSTS[:nh]:
                 net.listen(lambda: RawServerConn(srv), ip, 80)
+            if px:
+                net.dns[PROXY[0]] = [PROXY[1]]
+                net.listen(lambda: RawServerConn(srv), PROXY[1], PROXY[2])
+                tls_script = [list(x) for x in px["tls"]]
+                tls_state = {"n": 0}
+
+                async def start_tls(transport, protocol, sslcontext, *, server_hostname=None, **kw):
+                    # TLS upgrade of an established transport (SimLoop has none): the handshake may take time, fail or
+                    # never finish; like asyncio's own start_tls it closes the transport when it does not succeed
+                    # (failure or cancellation) and otherwise hands the transport over to the new protocol.
+                    tls_state["n"] += 1
+                    n = tls_state["n"]
+                    outcome, d = tls_script[n - 1] if n <= len(tls_script) else ("ok", 0)
+                    loop.note("start_tls", f"{transport.name}:{outcome}")
+                    try:
+                        if outcome == "stall":
+                            loop.faults["tls_stall"] += 1
+                            await loop.create_future()
+                        if d:
+                            fut = loop.create_future()
+                            loop.sim_call_later(d * 0.001, lambda: fut.done() or fut.set_result(None))
+                            await fut
+                        if outcome == "fail":
+                            loop.faults["tls_fail"] += 1
+                            raise ConnectionResetError(104, "Connection reset by peer during TLS handshake")
+                        if transport.is_closing():
+                            raise ConnectionAbortedError(103, "SSL handshake is taking place on a closed transport")
+                    except BaseException:
+                        transport.close()
+                        raise
+                    H.tls_ok += 1
+                    transport.set_protocol(protocol)
+                    return transport
+
+                loop.start_tls = start_tls
             script = [list(x) for x in scn["connect"]]
 
             def connect_script(addr, n):
@@ -249,6 +393,12 @@ def run(scn, ch, log=False):
                 return "ok", net.latency()
 
             net.connect_script = connect_script
+
+            def on_connect(ctr, str_):
+                t = asyncio.current_task()
+                H.tr_by_task.setdefault(t.get_name() if t is not None else "?", []).append(ctr)
+
+            net.on_connect = on_connect
             dns_state = {"n": 0}
 
             def dns_script(host, n):
@@ -277,7 +427,11 @@ def run(scn, ch, log=False):
                 phase[i] = "requesting"
                 try:
                     to = aiohttp.ClientTimeout(total=spec["total"])
-                    resp = await state["session"].get(f"http://{host}{path}", timeout=to)
+                    via = spec.get("via")
+                    if via:
+                        resp = await state["session"].get(f"{via}://{host}{path}", timeout=to, proxy=PROXY_URL)
+                    else:
+                        resp = await state["session"].get(f"http://{host}{path}", timeout=to)
                     phase[i] = "holding"
                     if spec["hold"]:
                         await asyncio.sleep(spec["hold"] * 0.001)
@@ -311,6 +465,16 @@ def run(scn, ch, log=False):
                         getattr(tc, "on_connection_" + k).append(hook(d))
                     tcs.append(tc)
                 state["session"] = aiohttp.ClientSession(connector=conn, trace_configs=tcs)
+
+            def route_class(trs):
+                # key suffix: the left-over connection is one to the proxy (tunnel or forwarded request); and, if that is
+                # so for every left-over one, that the attempt which opened it was cancelled (caller cancel / timeout)
+                # when the connector had already been closed
+                if not any(t.addr[0] == PROXY[1] for t in trs):
+                    return ""
+                if all(H.tr_end.get(t.name) == ("CancelledError", True) for t in trs):
+                    return ":connection_to_proxy:attempt_cancelled_after_connector_close"
+                return ":connection_to_proxy"
 
             loop.run_sim(setup(), vt_cap=1)
             conn = state["connector"]
@@ -376,13 +540,13 @@ def run(scn, ch, log=False):
                     spec = scn["tasks"][i]
                     if phase.get(i) != "requesting" or f"w{i}" in H.got_conn or f"w{i}" in H.establishing:
                         continue  # it has its connection (waiting for the peer) or is resolving/connecting
-                    host = HOSTS[spec["host"]][0]
+                    host = endpoint_of_task(spec)
                     free_total = (not limit) or tot < limit
                     free_host = (not lph) or per.get(host, 0) < lph
                     # is the task past the pool (resolving / connecting)?  then est counts it
                     if free_total and free_host:
                         waiting = [len(v) for v in conn._waiters.values()]
-                        violate("no_lost_wakeup", "waiter_blocked_with_free_capacity:" + ("several_host_queues" if (lph and len({t_["host"] for t_ in scn["tasks"]}) > 1)
+                        violate("no_lost_wakeup", "waiter_blocked_with_free_capacity:" + ("several_host_queues" if (lph and len({endpoint_of_task(t_) for t_ in scn["tasks"]}) > 1)
                                                                                     else ("after_waiter_cancelled_or_timed_out" if (H.cancelled_while_requesting or any(t_["total"] for t_ in scn["tasks"])) else "no_cancel:one_queue")),
                                 f"task {i} (host {host}) still waits for a connection at quiescence although capacity is free: "
                                 f"in use={len(H.out)} establishing={H.est} limit={limit} per_host={lph}; "
@@ -413,16 +577,18 @@ def run(scn, ch, log=False):
                     stray = [t for t in net.all_transports if t.name.startswith("c") and not t._closed and not t._closing
                              and t not in pooled]
                     if stray:
-                        violate("no_leak", "open_transport_outside_pool",
-                                f"{len(stray)} client transport(s) open but neither pooled nor in use after all tasks ended")
+                        violate("no_leak", "open_transport_outside_pool" + route_class(stray),
+                                f"{len(stray)} client transport(s) open but neither pooled nor in use after all tasks ended: "
+                                f"{[(t.name, t.addr) for t in stray]}")
             # close(): every transport the connector created is closed, every waiter failed
             tclose = loop.run_sim(state["session"].close(), vt_cap=loop.time() + 5.0)
             if not tclose.done():
                 violate("close", "close_blocked", "session.close()/connector.close() did not return")
             loop.run_sim(None, vt_cap=loop.time() + 0.5, step_cap=loop.steps + 20_000)
-            still = [t.name for t in net.all_transports if t.name.startswith("c") and not t._closed and not t._closing]
+            still = [t for t in net.all_transports if t.name.startswith("c") and not t._closed and not t._closing]
             if still:
-                violate("close", "transport_open_after_close", f"client transports still open after close(): {still}")
+                violate("close", "transport_open_after_close" + route_class(still),
+                        f"client transports still open after close(): {[t.name for t in still]}")
             if any(not t.done() for t in tasks.values()):
                 violate("close", "waiter_pending_after_close", "a task is still pending after connector.close()")
             if loop.exc_contexts:
@@ -435,6 +601,8 @@ def run(scn, ch, log=False):
                 "steps": st["steps"], "vtime": st["vtime"], "faults": st["faults"],
                 "probes": {"waited": int(H.waited), "handouts": H.handouts, "max_in_use": H.max_seen,
                            "closed_midway": int(state["closed"]), "cancel_fired": st["faults"].get("cancel", 0),
+                           "proxy_connects": srv.connects, "tunnels_refused": st["faults"].get("connect_refused_by_proxy", 0),
+                           "tls_upgrades": H.tls_ok,
                            "phases_" + "_".join(sorted({p.split(":")[0] for p in phase.values()})): 1},
                 "shape": f"n{len(scn['tasks'])}-h{nh}-L{limit}-P{lph}-c{len(scn['cancels'])}-x{int(scn['close_at'] is not None)}",
             }
